@@ -30,8 +30,19 @@ Verdict(e) ==
   ELSE IF e.rep /\ ~Conforms(e.s, Get(e.v)) THEN "FAIL:generated_value_nonconforming_by_spec:" \o SigOf(e)
   ELSE "OK"
 
+\* sre turns an alternation of single characters / classes into one class (as in Trace_C09)
+RECURSIVE RSubC01(_)
+RSubC01(x) == {x} \cup CASE x.r \in {"group", "rep", "uns"} -> RSubC01(x.body)
+                         [] x.r = "alt" -> UNION {RSubC01(x.alts[i]) : i \in DOMAIN x.alts}
+                         [] x.r = "seq" -> UNION {RSubC01(x.parts[i]) : i \in DOMAIN x.parts}
+                         [] OTHER -> {}
+MergeableAltC01(x) == x.r = "alt" /\ \A i \in DOMAIN x.alts :
+                         x.alts[i].r = "lit" \/ (x.alts[i].r = "class" /\ ~x.alts[i].neg)
+
 Drift(e) ==
   /\ e.tape # <<>> /\ \A j \in DOMAIN e.tape : e.tape[j] \in Selectors
+  /\ ~\E y \in SubSchemas(e.s) : y.t = "str" /\ IsSome(y.pattern) /\ Get(y.pattern).k = "pat"
+                                   /\ \E z \in RSubC01(Get(y.pattern).rx) : MergeableAltC01(z)
   /\ ~\E y \in SubSchemas(e.s) : y.t = "str" /\ IsSome(y.pattern) /\ Get(y.pattern).k = "pat"
                                    /\ RHasNeg(Get(y.pattern).rx)
   /\ LET m == Gen(e.s, e.tape, 0) IN
